@@ -74,6 +74,9 @@ pub struct HistCfg {
     pub base_offset: u32,
     /// bias rewinds towards ones that do not trigger known finding F1
     pub avoid_f1: bool,
+    /// never scan above the height the wallet knows as chain tip: tell it the tip first (the
+    /// scan-queue property quantifies over scans inside the wallet's known extent)
+    pub tip_before_scan: bool,
 }
 
 impl HistCfg {
@@ -119,6 +122,7 @@ impl HistCfg {
             spend_bias: *[0.2, 0.5, 0.8].choose(rng).unwrap(),
             base_offset: rng.gen_range(0..50),
             avoid_f1: rng.gen_bool(0.6),
+            tip_before_scan: false,
         }
     }
 
@@ -184,6 +188,7 @@ pub struct Hist {
     pub dup_scans: u64,
     pub rewinds_done: u32,
     pub rewinds_f1: u32,
+    pub rewinds_refused: u32,
     /// orphaned transactions available for re-mining
     pub orphan_pool: Vec<BuiltTx>,
     pub remined: u64,
@@ -228,6 +233,7 @@ impl Hist {
             dup_scans: 0,
             rewinds_done: 0,
             rewinds_f1: 0,
+            rewinds_refused: 0,
             orphan_pool: vec![],
             remined: 0,
             f1_scan_failures: 0,
@@ -290,6 +296,9 @@ impl Hist {
     pub fn scan(&mut self, from: u32, limit: u32) -> bool {
         let tip = self.sim.tip_height();
         let end = (from + limit).min(tip + 1);
+        if self.cfg.tip_before_scan && self.w.chain_height().map_or(true, |c| end - 1 > c) {
+            let _ = self.tip(tip);
+        }
         // events of interest, computed before the wallet state changes
         let mut sbr = 0;
         for h in from..end {
@@ -345,18 +354,20 @@ impl Hist {
         r
     }
 
-    /// Rewind the sim to `to`, tell the wallet, continue differently.
-    fn rewind(&mut self, to: u32) {
-        // remember the orphaned transactions for possible re-mining
-        let orphaned: Vec<BuiltTx> = self
-            .sim
-            .blocks
-            .range(to + 1..)
-            .flat_map(|(_, b)| b.txs.iter().map(|t| t.built.clone()))
-            .collect();
-        self.sim.rewind(to);
+    /// Reorg at `to`: the wallet is asked to truncate first; only if it accepts does the chain
+    /// actually fork there (a refusal -- e.g. no checkpoint at or below that height -- is a legal
+    /// outcome and simply means this reorg does not happen in this history).
+    fn rewind(&mut self, to: u32) -> bool {
         match self.w.truncate_to_height(to) {
             Ok(actual) => {
+                // remember the orphaned transactions for possible re-mining
+                let orphaned: Vec<BuiltTx> = self
+                    .sim
+                    .blocks
+                    .range(to + 1..)
+                    .flat_map(|(_, b)| b.txs.iter().map(|t| t.built.clone()))
+                    .collect();
+                self.sim.rewind(to);
                 let sizes = self.sim.sizes_at(actual);
                 let mut f1 = false;
                 for p in POOLS {
@@ -368,10 +379,12 @@ impl Hist {
                 }
                 self.orphan_pool.extend(orphaned);
                 self.ops.push(Op::Rewind { to, actual: Some(actual), f1 });
+                true
             }
-            Err(e) => {
+            Err(_) => {
+                self.rewinds_refused += 1;
                 self.ops.push(Op::Rewind { to, actual: None, f1: false });
-                self.aborted = Some(format!("truncate_to_height({to}) refused: {e}"));
+                false
             }
         }
     }
@@ -487,8 +500,7 @@ impl Hist {
                     // the wallet can only truncate to a height at or above its oldest checkpoint;
                     // keep the request within the last 99 blocks of what it has scanned
                     let to = tip - d;
-                    self.rewind(to);
-                    if self.aborted.is_none() {
+                    if self.rewind(to) {
                         self.call(mons, r);
                         let cont = if self.rng.gen_bool(0.5) {
                             self.rng.gen_range(45..70)
@@ -547,5 +559,144 @@ impl Hist {
 
     pub fn last_op(&self) -> Option<&Op> {
         self.ops.last()
+    }
+}
+
+// ---------------------------------------------------------------------------------------------
+// Suggestion-driven client (C15b): "repeatedly scan what the wallet suggests".
+
+impl Hist {
+    /// The wallet's suggested ranges as (start, end_exclusive, priority debug string).
+    pub fn suggested(&self) -> Result<Vec<(u32, u32, String)>, String> {
+        use zcash_client_backend::data_api::WalletRead;
+        self.w
+            .db
+            .suggest_scan_ranges()
+            .map(|v| {
+                v.into_iter()
+                    .map(|r| {
+                        (
+                            u32::from(r.block_range().start),
+                            u32::from(r.block_range().end),
+                            format!("{:?}", r.priority()),
+                        )
+                    })
+                    .collect()
+            })
+            .map_err(|e| format!("{e:?}"))
+    }
+
+    /// Runs a client that follows `suggest_scan_ranges`, with tip updates, new blocks and
+    /// rewinds injected. Returns (steps taken in the final sync, bound) for the bounded-progress
+    /// verdict of the caller.
+    pub fn run_suggested(&mut self, mons: &mut [&mut dyn Monitor], r: &mut Reporter) -> (u64, u64, bool) {
+        self.mine(self.cfg.initial_len);
+        let t = self.sim.tip_height();
+        if self.tip(t).is_err() {
+            self.aborted = Some("update_chain_tip failed".into());
+        }
+        self.call(mons, r);
+        let mut disturbances = self.cfg.steps / 6;
+        let mut steps = 0u64;
+        let mut budget = 0u64;
+        let mut tip_updates = 1u64;
+        let mut synced = false;
+        loop {
+            if self.aborted.is_some() || !r.time_left() {
+                break;
+            }
+            let blocks = (self.sim.tip_height() - self.sim.base_height()) as u64;
+            // bounded progress: every step scans at least one block the wallet asked for; a tip
+            // update or rewind may legitimately ask for re-verification of up to ~VERIFY_LOOKAHEAD
+            // already scanned blocks, and FoundNote/OpenAdjacent extensions never exceed the chain.
+            budget = 2 * blocks + 40 * (tip_updates + self.rewinds_done as u64) + 20;
+            if steps > budget {
+                break;
+            }
+            let sug = match self.suggested() {
+                Ok(s) => s,
+                Err(e) => {
+                    self.aborted = Some(format!("suggest_scan_ranges failed: {e}"));
+                    break;
+                }
+            };
+            // inject a disturbance now and then while syncing
+            if disturbances > 0 && (sug.is_empty() || self.rng.gen_bool(0.12)) {
+                disturbances -= 1;
+                match self.rng.gen_range(0..3) {
+                    0 => {
+                        let n = self.rng.gen_range(1..=12);
+                        self.mine(n);
+                        let t = self.sim.tip_height();
+                        let _ = self.tip(t);
+                        tip_updates += 1;
+                    }
+                    1 if self.rewinds_done < self.cfg.max_rewinds => {
+                        let tip = self.sim.tip_height();
+                        let maxd = (tip - self.sim.base_height() - 1).min(60);
+                        if maxd >= 1 {
+                            let mut d = self.rng.gen_range(1..=maxd.min(12));
+                            if self.cfg.avoid_f1 {
+                                for _ in 0..30 {
+                                    if !self.rewind_would_taint(tip - d) {
+                                        break;
+                                    }
+                                    d = self.rng.gen_range(1..=maxd.min(12));
+                                }
+                            }
+                            if self.rewind(tip - d) {
+                                self.call(mons, r);
+                                let cont = self.rng.gen_range(1..50);
+                                self.mine(cont);
+                                let t = self.sim.tip_height();
+                                let _ = self.tip(t);
+                                tip_updates += 1;
+                            }
+                        }
+                    }
+                    _ => {
+                        let t = self.sim.tip_height();
+                        let _ = self.tip(t);
+                        tip_updates += 1;
+                    }
+                }
+                self.call(mons, r);
+                continue;
+            }
+            if sug.is_empty() {
+                synced = true;
+                break;
+            }
+            // take the first (highest priority) suggestion, clipped to blocks that exist
+            let (a, b, _) = sug[0].clone();
+            let tip = self.sim.tip_height();
+            let lo = a.max(self.sim.base_height() + 1);
+            let hi = b.min(tip + 1);
+            if lo >= hi {
+                // the wallet asks for blocks the chain does not have (yet): tell it the tip again
+                let _ = self.tip(tip);
+                tip_updates += 1;
+                steps += 1;
+                self.call(mons, r);
+                continue;
+            }
+            let len = hi - lo;
+            let limit = self.rng.gen_range(1..=self.cfg.max_batch.min(len).max(1));
+            // either end of the suggested range
+            let from = if self.rng.gen_bool(0.5) { lo } else { hi - limit };
+            steps += 1;
+            if !self.scan(from, limit) {
+                self.classify_scan_failure();
+                if self.aborted.is_none() {
+                    self.aborted = Some("scan of a suggested range failed".into());
+                }
+            }
+            self.call(mons, r);
+        }
+        self.ops.push(Op::Finish);
+        for m in mons.iter_mut() {
+            m.at_end(self, r);
+        }
+        (steps, budget, synced)
     }
 }
